@@ -4,7 +4,7 @@
     interleaved arbitrarily and sync.Pool free to hand out any pooled buffer or a new one.
     "No data race" itself is a statement about the Go memory model and is not expressible in this model: the
     race-detector runs of the check are supporting evidence for that half (see level_note).
-    OBLIGATIONS: C13_pool_invariant C13_render_isolated C13_nonvacuous *)
+    OBLIGATIONS: C13_pool_invariant C13_render_isolated C13_failed_render_writes_nothing C13_nonvacuous *)
 From GV Require Import Runtime.Pool Proofs.RuntimeProofs.
 
 (** every pooled buffer is empty, after any history of complete, failed and unfinished renders *)
@@ -21,12 +21,21 @@ Theorem C13_render_isolated : forall r steps w c ws,
 Proof. exact render_isolated. Qed.
 Print Assumptions C13_render_isolated.
 
+(** a render that fails (its finish carries an error) or has not finished hands nothing to its destination, whatever the
+    other renders do meanwhile: the only step that writes for [r] is [r]'s own successful finish *)
+Theorem C13_failed_render_writes_nothing : forall r steps w,
+  (forall x, ~ In (r, x) (w_written w)) -> existsb (finishes_ok r) steps = false ->
+  forall x, ~ In (r, x) (w_written (pool_run steps w)).
+Proof. exact nothing_without_finish. Qed.
+Print Assumptions C13_failed_render_writes_nothing.
+
 Local Open Scope nat_scope.
 (** non-vacuity: render 1 interleaved with a failing render 2 and a render 3 that reuses a pooled buffer *)
 Example C13_nonvacuous :
   let steps := [PGet 2 None; PWrite 2 (lit "junk"); PGet 1 (Some 0); PFinish 2 false; PWrite 1 (lit "<p>");
                 PGet 3 (Some 0); PWrite 3 (lit "three"); PWrite 1 (lit "one</p>"); PFinish 3 true; PFinish 1 true] in
   w_written (pool_run steps world_init) = [(1, lit "<p>one</p>"); (3, lit "three")] /\
-  steps_of 1 steps = PGet 1 (Some 0) :: [PWrite 1 (lit "<p>"); PWrite 1 (lit "one</p>")] ++ [PFinish 1 true].
-Proof. split; vm_compute; reflexivity. Qed.
+  steps_of 1 steps = PGet 1 (Some 0) :: [PWrite 1 (lit "<p>"); PWrite 1 (lit "one</p>")] ++ [PFinish 1 true] /\
+  existsb (finishes_ok 2) steps = false.
+Proof. repeat split; vm_compute; reflexivity. Qed.
 Print Assumptions C13_nonvacuous.
